@@ -81,3 +81,13 @@ VARIANTS = [
       "            if j < i:  # ensure that i <= j\n"
       "                i, j = j, i  # swap indices if i > j\n", "silent"),
 ]
+
+VARIANTS += [
+    V("ea-first-position-reversal-dropped", "moptipyapps/tsp/ea1p1_revn.py",
+      "            x[0:j + 1:1] = x[j::-1]", "            pass", "fire",
+      "D6.2", "found by the mutation survey: i == 0 moves were accounted "
+      "for but not applied"),
+    V("fea-general-reversal-dropped", "moptipyapps/tsp/fea1p1_revn.py",
+      "            x[i:j + 1:1] = x[j:i - 1:-1]", "            pass", "fire",
+      "D6.2"),
+]
